@@ -2,12 +2,15 @@
 
 package main
 
+import "strings"
+
 type Plan struct {
 	Level       string
 	Rule        string
 	Assumptions []string
 	Quick       []Shard
 	Thorough    []Shard
+	Keep        func(sig string) bool // nil = every finding belongs to this property
 }
 
 var plans = map[string]Plan{}
@@ -24,16 +27,76 @@ var timeAssumption = "time is abstract: a timer may fire at any point after it i
 var netAssumption = "in-memory net.Conn/net.Listener model (blocking Read, Write into the peer's buffer, Close wakes readers and breaks the peer's writes); sequentially consistent memory"
 var fifoAssumption = "several goroutines parked on the same channel are served first-come first-served as in the Go runtime; the arrival order is explored"
 
+type B = [][2]int
+
+// pb: preemption-bounded shards (switching away from a blocked thread is free); db: delay-bounded shards.
+func pb(dead int, bounds B, names ...string) []Shard {
+	var r []Shard
+	for _, n := range names {
+		r = append(r, Shard{Scenario: n, Bounds: bounds, Pre: bounds[len(bounds)-1][0], Fault: bounds[len(bounds)-1][1], DeadS: dead})
+	}
+	return r
+}
+func db(dead int, bounds B, names ...string) []Shard {
+	r := pb(dead, bounds, names...)
+	for i := range r {
+		r[i].Delay = true
+	}
+	return r
+}
+func cat(ss ...[]Shard) []Shard {
+	var r []Shard
+	for _, s := range ss {
+		r = append(r, s...)
+	}
+	return r
+}
+
+var boundingNote = "two bounding disciplines, both exhaustive within their bound: 'preemption' = every schedule with at most k preemptions (switching away from a blocked/finished thread is free); " +
+	"'delay' = every schedule with at most k deviations from the deterministic scheduler (continue the running thread, else lowest enabled thread). Environment faults are bounded separately."
+
 func init() {
+	hasPrefix := func(ps ...string) func(string) bool {
+		return func(sig string) bool {
+			for _, p := range ps {
+				if strings.HasPrefix(sig, p) {
+					return true
+				}
+			}
+			return false
+		}
+	}
 	c08 := []string{"srv-req-read-close", "srv-req-close", "srv-req-close-smallpipe", "srv-two-seq", "srv-pipelined", "srv-panics", "srv-half-then-close",
 		"srv-4bytes-then-close", "srv-garbage", "srv-undecodable", "srv-toobig", "srv-req-then-garbage", "srv-slow-close", "srv-halfclose"}
-	c08two := []string{"srv-2conn-good-bad", "srv-2conn-good-abrupt"}
+	c08multi := []string{"srv-2conn-good-bad", "srv-2conn-good-abrupt", "srv-3conn"}
 	plans["C08"] = Plan{
 		Level: "model_checking",
 		Rule: "all schedules (thread interleavings, select choices, timer firings) of the real kmipserver code under scripted client connections, " +
-			"within the preemption bound given per shard; distinct = distinct (scenario, outcome) classes observed",
+			"within the bound given per shard; distinct = distinct (scenario, outcome) classes observed. " + boundingNote,
 		Assumptions: []string{timeAssumption, netAssumption, fifoAssumption, "a half-close is treated like a disconnect (no response required after it)"},
-		Quick:       append(shards(1, 0, 100, c08...), shards(0, 0, 100, c08two...)...),
-		Thorough:    append(append(shards(2, 0, 1500, c08...), shards(1, 0, 1500, c08two...)...), shards(0, 0, 1500, "srv-3conn")...),
+		Quick:       cat(pb(100, B{{0, 0}, {1, 0}}, c08...), db(100, B{{2, 0}}, c08multi...)),
+		Thorough:    cat(pb(1500, B{{1, 0}, {2, 0}}, c08...), db(1500, B{{3, 0}, {4, 0}}, c08...), db(1500, B{{2, 0}, {3, 0}}, c08multi...), pb(1500, B{{0, 0}}, c08multi...)),
+	}
+	c10 := []string{"cli-cancel-then-next", "cli-timeout-seq", "cli-par-2", "cli-par-cancel", "cli-par-3", "cli-negotiate-cancel"}
+	plans["C10"] = Plan{
+		Level: "model_checking",
+		Rule: "all schedules of N callers sharing one real kmipclient.Client against scripted echo servers (response = request identifier), " +
+			"with cancellers/timeouts firing at any point, within the bound per shard; distinct = distinct (scenario, outcome) classes. " + boundingNote,
+		Assumptions: []string{timeAssumption, netAssumption, fifoAssumption},
+		Keep:        hasPrefix("fail:misassociation", "fail:corrupt-response"),
+		Quick:       cat(db(100, B{{2, 0}, {3, 0}}, c10...), pb(100, B{{0, 0}, {1, 0}}, "cli-par-2")),
+		Thorough:    cat(db(1500, B{{3, 0}, {4, 0}}, c10...), pb(1500, B{{0, 0}, {1, 0}, {2, 0}}, c10...)),
+	}
+	c11 := []string{"clf-seq3", "clf-seq3-srvclose", "clf-seq3-dial", "clf-negotiate", "clf-par-2", "clf-close-only"}
+	plans["C11"] = Plan{
+		Level: "fault_enumeration",
+		Rule: "every Read/Write of the client side of every connection (and every dial / server reply) is an environment choice point: ok, EOF, reset, closed, " +
+			"short read/write, server closes right after replying, dial refused; all placements of <= fault-bound faults x all schedules within the scheduling bound; " +
+			"distinct = distinct (scenario, outcome) classes. " + boundingNote,
+		Assumptions: []string{timeAssumption, netAssumption, fifoAssumption, "'promptly' is decided as 'without needing any further external event' (no caller blocked forever)",
+			"a call is only required to succeed when the previous call had already failed and no fault was injected during the call itself"},
+		Keep:     hasPrefix("panic:", "deadlock:", "leak:", "fail:no-recovery", "fail:spurious-failure", "fail:retransmit", "fail:call-after-close", "fail:corrupt-response", "fail:misassociation", "fail:server-got-garbage", "fail:dial-failed"),
+		Quick:    cat(db(100, B{{0, 1}, {1, 1}, {2, 1}}, c11...), db(100, B{{0, 2}, {1, 2}}, "clf-seq3-dial", "clf-seq3-srvclose")),
+		Thorough: cat(db(1500, B{{2, 1}, {3, 1}}, c11...), db(1500, B{{0, 2}, {1, 2}}, c11...), pb(1500, B{{0, 1}}, c11...)),
 	}
 }
